@@ -1,8 +1,20 @@
 /-
   C20 — specification with a decidable checker.  The driver evaluates `specOk` on the
-  IMPLEMENTATION's observable (for every produced redirect signature: the list of entity keys of
-  the universe under whose certificate it verifies); Props/C20.lean proves it of the model's
-  observable for every thread set and every schedule.
+  IMPLEMENTATION's observable; Props/C20.lean proves it of the model's observable for every thread
+  set and every schedule.
+
+  A result is `(thread t, index i of the operation in t's program, observation)`.  The entity "that
+  made the call" is the one thread t acts for when it carries out operation i: its initial entity, or
+  the one it most recently set up (`keyAfter th.key (th.prog.take i)`), whose key pair is what the key
+  file held when that entity was set up.
+    * signature produced (sign operation): it verifies — judged by an INDEPENDENT verifier, for the
+      SigAlg and octets of the URL itself — under the caller's certificate and under no other key of
+      the universe;
+    * verdict of the library's own verifier for a call that is given a certificate: never `true`
+      unless the signature was made by that certificate's key pair over these octets with this digest
+      ("under no other entity's certificate", whichever entity's backend does the checking), and `true`
+      when it was and the algorithm has a signer entry;
+    * verification without a certificate, refusals, crashes, set-up results: not constrained.
 -/
 import PysamlModel.Model.Signer
 
@@ -17,32 +29,50 @@ inductive Obs (κ : Type) where
       the URL verifies for the `SigAlg` and octets the URL itself carries -/
   | signed (verifiers : List κ)
   | verified (ok : Bool)
+  | setupDone
 deriving DecidableEq, Repr
 
-/-- All certificates a signature is tried against: the acting threads' entities, then bystanders. -/
+def setupContent : Op κ α μ → Option κ
+  | .setup _ c => some c
+  | _ => none
+
+/-- All certificates a signature is tried against: per thread its initial entity's key and the keys of
+    the entities it sets up, then bystanders (which may be of any kind: RSA, EC, Ed25519 …). -/
 def certUniverse (threads : List (Thread κ α μ)) (extra : List κ) : List κ :=
-  threads.map (·.key) ++ extra
+  threads.flatMap (fun th => th.key :: th.prog.filterMap setupContent) ++ extra
 
 def observeEvent (univ : List κ) : Event κ α μ → Obs κ
   | .refused => .refused
   | .crashed => .crashed
   | .signed alg msg s => .signed (univ.filter (fun k => verifies k alg msg s))
   | .verified ok => .verified ok
+  | .setupDone => .setupDone
 
-def observe (univ : List κ) (out : List (Nat × Event κ α μ)) : List (Nat × Obs κ) :=
-  out.map (fun p => (p.1, observeEvent univ p.2))
+def observe (univ : List κ) (out : List (Nat × Nat × Event κ α μ)) : List (Nat × Nat × Obs κ) :=
+  out.map (fun p => (p.1, p.2.1, observeEvent univ p.2.2))
 
-/-- The property for one result of a thread whose entity key is `own`: a signature verifies under
-    the caller's certificate and under no other key of the universe.  Results that are not
-    signatures are not constrained (the property speaks about signatures produced). -/
-def specEvent (own : κ) : Obs κ → Bool
-  | .signed vs => vs.contains own && vs.all (fun k => decide (k = own))
-  | _ => true
+/-- The property for the result of operation `op` carried out for the entity with key `own`. -/
+def specOp (tb : Tables α) (own : κ) : Op κ α μ → Obs κ → Bool
+  | .sign _ _, .signed vs => vs.contains own && vs.all (fun k => decide (k = own))
+  | .sign _ _, .refused => true
+  | .sign _ _, .crashed => true
+  | .verify alg msg sig (some c) _, .verified ok =>
+      (!ok || verifies c alg msg sig) && (!(tb.hasSigner alg && verifies c alg msg sig) || ok)
+  | .verify _ _ _ none _, .verified _ => true
+  | .verify _ _ _ _ _, .crashed => true
+  | .setup _ _, .setupDone => true
+  | .setup _ _, .crashed => true
+  | _, _ => false
 
-/-- `keys[t]` = key of the entity thread `t` acts for. -/
-def specOk (keys : List κ) (obs : List (Nat × Obs κ)) : Bool :=
-  obs.all (fun p => match keys[p.1]? with
-                    | some own => specEvent own p.2
-                    | none => false)
+def specEntry (tb : Tables α) (threads : List (Thread κ α μ)) (p : Nat × Nat × Obs κ) : Bool :=
+  match threads[p.1]? with
+  | none => false
+  | some th =>
+    match th.prog[p.2.1]? with
+    | none => false
+    | some op => specOp tb (keyAfter th.key (th.prog.take p.2.1)) op p.2.2
+
+def specOk (tb : Tables α) (threads : List (Thread κ α μ)) (obs : List (Nat × Nat × Obs κ)) : Bool :=
+  obs.all (specEntry tb threads)
 
 end Signer
